@@ -1,0 +1,36 @@
+//go:build verif
+
+package miner
+
+import (
+	"context"
+
+	"0chain.net/chaincore/block"
+)
+
+// Thin exports for the verification harness (engine "notar", property C31). No logic here.
+
+// VerifNotarProcessVerifyBlock exposes processVerifyBlock (the body of the block-verify workers).
+func (mc *Chain) VerifNotarProcessVerifyBlock(ctx context.Context, b *block.Block) error {
+	return mc.processVerifyBlock(ctx, b)
+}
+
+// VerifNotarHandleVerificationTicketMessage exposes handleVerificationTicketMessage.
+func (mc *Chain) VerifNotarHandleVerificationTicketMessage(ctx context.Context, msg *BlockMessage) {
+	mc.handleVerificationTicketMessage(ctx, msg)
+}
+
+// VerifNotarNotarizationProcess exposes notarizationProcess (the body of the notarization process worker).
+func (mc *Chain) VerifNotarNotarizationProcess(ctx context.Context, not *Notarization) error {
+	return mc.notarizationProcess(ctx, not)
+}
+
+// VerifNotarHandleNotarizationMessage exposes handleNotarizationMessage (queues for the notarization process worker).
+func (mc *Chain) VerifNotarHandleNotarizationMessage(ctx context.Context, msg *BlockMessage) {
+	mc.handleNotarizationMessage(ctx, msg)
+}
+
+// VerifNotarHandleNotarizedBlockMessage exposes handleNotarizedBlockMessage.
+func (mc *Chain) VerifNotarHandleNotarizedBlockMessage(ctx context.Context, msg *BlockMessage) {
+	mc.handleNotarizedBlockMessage(ctx, msg)
+}
